@@ -748,4 +748,5 @@ RULES = [
 	('16.b', 'every relaxation step is behind the previously-failed, remaining-capacity, self-channel and path-htlc-minimum tests', r16b),
 	('16.p', 'same-name field transfer: structs carrying this property\'s quantities are filled from the same-named field or a reviewed alias (rules/provenance.py)', lambda F: provenance.for_property(F, 'C16', '16.p')),
 	('16.q', 'no call hands a value named like one parameter of the callee to a different parameter (swapped type-compatible arguments; rules/provenance.py)', lambda F: provenance.swaps_for_property(F, 'C16', '16.q')),
+	('16.z', 'named protocol / policy constants in this property\'s files have their reviewed values (rules/provenance.py)', lambda F: provenance.consts_for_property(F, 'C16', '16.z')),
 ]
